@@ -1464,7 +1464,7 @@ func main() {
 		tier = os.Args[1]
 	}
 	R = mon.Start("C06", tier)
-	R.Rule = "lock-step of boc.BitString/boc.Cell against an ideal []bool model; exhaustive (offset x width x pattern) for ReadUint/PickUint/ReadInt, every offset for byte/bit readers, every big-int width 1..257 x offset 0..7 x boundary values, every writer at every alignment, capacity seams, random write-then-read sequences (with further writes in between the reads) on bare strings, fresh cells and cells parsed from a BOC; random sequences of AddRef/NewRef/NextRef/ResetCounters/CopyRemaining/Refs on built and parsed cells against a slot list with a cursor; Grow and Append beyond the capacity (content, read-back, capacity after Grow); values handed out by ReadBits / ReadRemainingBits / CopyRemaining / Copy are written to (Append, Grow+WriteBit, On/Off) and the source must still hold and read what was written (every offset 0..71 x width 0..72 plus inside the random sequences); a case is non-trivial when it executed at least one tongo operation whose result was compared with the model; distinct = distinct (operation, length, offset, width, pattern/value) tuples or distinct sequence seeds"
+	R.Rule = "lock-step of boc.BitString/boc.Cell against an ideal []bool model; exhaustive (offset x width x pattern) for ReadUint/PickUint/ReadInt, every offset for byte/bit readers, every big-int width 1..257 x offset 0..7 x boundary values, every writer at every alignment, capacity seams, random write-then-read sequences (with further writes in between the reads) on bare strings, fresh cells and cells parsed from a BOC; random sequences of AddRef/NewRef/NextRef/ResetCounters/CopyRemaining/Refs on built and parsed cells against a slot list with a cursor; Grow and Append beyond the capacity (content, read-back, capacity after Grow); values handed out by ReadBits / ReadRemainingBits / CopyRemaining / Copy are written to (Append, Grow+WriteBit, On/Off) and the source must still hold and read what was written (every offset 0..71 x width 0..72 plus inside the random sequences); sequences that start from a string parsed from Fift hex / JSON (tagged and untagged lengths 0..72 and up to 1023), handed out by ReadBits / ReadRemainingBits / Copy, poked with On beyond its length, or from a cell parsed with content: enlarged with Grow / Append, written to zeros first through every writer, then random writes, read back raw, by ReadUint, ReadBits and as Fift hex; a case is non-trivial when it executed at least one tongo operation whose result was compared with the model; distinct = distinct (operation, length, offset, width, pattern/value) tuples or distinct sequence seeds"
 	R.Assume("the ideal model (harness/ref/bits, a []bool and a cursor) is correct")
 	R.Assume("values that do not fit the requested width, negative widths and widths > 64 (> 257 for big ints), zero-width signed/big integers are outside the stated domain and not generated")
 	R.Assume("after an overflowing write only the previously written prefix is compared (the statement promises nothing about the partial tail)")
@@ -1478,6 +1478,7 @@ func main() {
 	sectionRefSequences()
 	sectionGrow()
 	sectionMutateDerived()
+	sectionStartFromDerived()
 	sectionFift()
 	R.Sample(map[string]any{"kind": "exhaustive-read", "example": "len=1023 offset=57 width=57 pattern=random -> ReadUint/PickUint/ReadInt vs model"})
 	os.Exit(R.Finish())
